@@ -1,15 +1,16 @@
 (* driver for the C12 model: one data_received call per line
-   B <nseen> <sid>* S <state> X <batch>
+   B S <state> X <batch>
      state = role closed tclosed hflag ntasks (sid live cancelled)* drecv succ fail waiter ping
              nreg (sid wrapper ckind ccode headers trailers hev tev wev queue eof drecv)*
              role: 0 client 1 server; ckind: 0 none 1 protocol-error 2 remote-reset(ccode)
              3 goaway(ccode) 4 connection-lost 5 connection-closed 6 other
      batch = P                      (h2 raised ProtocolError)
+           | U                      (h2 raised UnicodeDecodeError: undecodable header block)
            | E <n> (kind a b c)*    kind = index of the h2 event class (see kind_of below);
                                     kind 17 (other class): a = class name as code points
-   answer: <inv_b> <sinv_b> <wf> ok <state> C <n> (sid size)* D <1|0|->
-         | <inv_b> <sinv_b> <wf> raises <exception>
-     C = connection.ack calls made by the batch; D = shut_down holds of the result (only when the
+   answer: <inv_b> <wf> ok <state> C <n> (sid size)* R <n> sid* D <1|0|->
+         | <inv_b> <wf> raises <exception>
+     C = connection.ack calls made by the batch; R = h2.reset_stream calls made by it; D = shut_down holds of the result (only when the
      batch closed a live processor) *)
 
 let toks : string list ref = ref []
@@ -55,7 +56,7 @@ let parse_state () =
             s_tev = tev; s_wev = wev; s_queue = q; s_eof = eof; s_drecv = d })) in
   { st_role = role; st_closed = closed; st_tclosed = tclosed;
     st_h = { h_flag = hflag; h_tasks = tasks }; st_reg = reg; st_drecv = drecv; st_succ = succ;
-    st_fail = fail; st_waiter = waiter; st_ping = ping; st_credit = [] }
+    st_fail = fail; st_waiter = waiter; st_ping = ping; st_credit = []; st_rst = [] }
 
 let b2s b = if b then "1" else "0"
 let z2s z = string_of_int (int_of_z z)
@@ -105,25 +106,24 @@ let parse_event () =
 let parse_batch () =
   match next () with
   | "P" -> H2ProtocolError
+  | "U" -> H2UnicodeDecodeError
   | "E" -> let n = next_int () in H2Events (times n parse_event)
   | t -> failwith ("batch " ^ t)
 
 let exn_name = function
-  | ENotImplemented -> "NotImplementedError" | EKeyError -> "KeyError"
+  | EH2ProtocolError -> "ProtocolError" | EH2StreamClosed -> "StreamClosedError"
   | EAttributeError -> "AttributeError" | EValueError -> "ValueError"
   | EUnknownHandler -> "UnknownHandler"
 
 let handle ws =
   toks := ws;
   expect "B";
-  let ns = next_int () in
-  let seen = times ns next_z in
   expect "S";
   let s = parse_state () in
   expect "X";
   let b = parse_batch () in
-  let evs = (match b with H2Events l -> l | H2ProtocolError -> []) in
-  let head = String.concat " " [b2s (inv_b s); b2s (sinv_b seen s); b2s (List.for_all event_wf evs)] in
+  let evs = (match b with H2Events l -> l | _ -> []) in
+  let head = String.concat " " [b2s (inv_b s); b2s (List.for_all event_wf evs)] in
   match data_received s b with
   | Raises x -> head ^ " raises " ^ exn_name x
   | Ok s' ->
@@ -135,6 +135,7 @@ let handle ws =
           List.concat_map (function ConnectionTerminated c -> [RGoaway c] | _ -> []) evs in
         b2s (List.exists (fun why -> shut_down why s') cands) in
     String.concat " " ([head; "ok"; show_state s'; "C"; string_of_int (List.length s'.st_credit)]
-                       @ credit @ ["D"; d])
+                       @ credit @ ["R"; string_of_int (List.length s'.st_rst)]
+                       @ List.map z2s s'.st_rst @ ["D"; d])
 
 let () = main_loop handle
